@@ -253,10 +253,10 @@ func roundTrip(kind string, v *Val) (field, key, msg string) {
 	return "", "", ""
 }
 
-const rule = "a message type is drawn (hello messages weighted up) and every wire field of the struct obtained from zcrypto is filled by a by-type generator through reflection (byte strings 0..300 with the length-prefix maxima 255/65535 and at most one large 20000..70000-byte field per message, uint lists, strings, nested key shares / PSK identities / certificate entries / raw unknown extensions), constrained by a per-field table transcribed from the wire format and the unmarshal code (fixed 32-byte randoms, non-empty list elements, booleans implied by other fields, SCSV implies the renegotiation flag, binders only with identities). Checks: unmarshal(marshal(m)) succeeds and equals m field by field (nil == empty, marshal cache and non-wire annotations excluded), re-marshalling the decoded value reproduces the bytes, and for every type except ClientHello/ServerHello (optional extensions tail) no strict prefix is accepted (all prefixes up to 3000 bytes, else the first/last 1200 and 600 evenly spaced). Non-trivial: the value has at least one empty variable-length field and at least one field at its length-prefix maximum or >= 20000 bytes, or a zcrypto-specific field (extendedRandom, extendedMasterSecret, sctEnabled, unknownExtensions, lifetimeHint) is set; distinct by case hash."
+const rule = "a message type is drawn (hello messages weighted up) and every wire field of the struct obtained from zcrypto is filled by a by-type generator through reflection (byte strings 0..300 with the length-prefix maxima 255/65535 and at most one large 20000..70000-byte field per message, uint lists, strings, nested key shares / PSK identities / certificate entries / raw unknown extensions), constrained by a per-field table transcribed from the wire format and the unmarshal code (fixed 32-byte randoms, non-empty list elements, booleans implied by other fields, SCSV implies the renegotiation flag, binders only with identities). Checks: unmarshal(marshal(m)) succeeds and equals m field by field (nil == empty, marshal cache and non-wire annotations excluded), re-marshalling the decoded value reproduces the bytes, and for every type except ClientHello/ServerHello (optional extensions tail) no strict prefix is accepted (all prefixes up to 3000 bytes, else the first/last 1200 and 600 evenly spaced). Non-trivial: the value has at least one empty variable-length field and at least one field at its length-prefix maximum or >= 20000 bytes, or a zcrypto-specific field (extendedRandom, extendedMasterSecret, serverHello unknownExtensions, lifetimeHint) is set; distinct by case hash."
 
 var assumptions = []string{
-	"Domain = well-formed values: fields that the wire format cannot carry (marshal cache `raw`, serverKeyExchangeMsg.digest which is an annotation computed after verification, PrivateKey/SupportedSignatureAlgorithms/Leaf of the embedded tls.Certificate) are not part of the value; list elements that the parsers require to be non-empty are non-empty; certificateMsgTLS13.ocspStapling/scts equal the presence of a staple / SCT list on the leaf entry; hasSignatureAlgorithm and usedOldKey are context set on the receiving value by the caller, as the handshake code does.",
+	"Domain = well-formed values: fields that the wire format cannot carry (marshal cache `raw`, clientHelloMsg.sctEnabled and clientHelloMsg.unknownExtensions which no code marshals or parses, serverKeyExchangeMsg.digest which is an annotation computed after verification, PrivateKey/SupportedSignatureAlgorithms/Leaf of the embedded tls.Certificate) are not part of the value; list elements that the parsers require to be non-empty are non-empty; certificateMsgTLS13.ocspStapling/scts equal the presence of a staple / SCT list on the leaf entry; hasSignatureAlgorithm and usedOldKey are context set on the receiving value by the caller, as the handshake code does.",
 	"nil and empty slices are the same value.",
 	"Total sizes stay inside the enclosing length prefixes (one large field per message), where marshal would otherwise panic by design.",
 	"sessionState / sessionStateTLS13 are included in the truncation check although the statement's second sentence names message types only (the repository's own test does the same).",
